@@ -1,11 +1,11 @@
 /-
   C20 — syntax-error messages name the offending token and its physical line.
-  [A]: the message format; the line bookkeeping of each lexer step (a token carries the counter
-  value at its start; the counter advances on every physical line break — also inside brackets —
-  and never on `;`).  The loop invariant "`lineno` = 1 + number of line breaks consumed" over a
-  whole text (`lineno_is_physical_line`, [B]) is pending.
+  The message format; the line bookkeeping of each lexer step; and the whole-text theorem
+  `lineno_is_physical_line`: every token of every text carries the physical line of its first
+  character (loop invariant of the token loop, SqLemmas/LexLemmas.lean).
 -/
 import Sq.Proto
+import SqLemmas.LexLemmas
 namespace SqProps.C20
 open Sq
 
@@ -38,6 +38,24 @@ theorem newline_advances_line_in_brackets (st : LexSt) (cs : List Char) (h : st.
 theorem mk_line (ty : Tk) (v : List Char) (st : LexSt) (n : Nat) (dd : Int) (rest : List Char) :
     ∃ t st', mk ty v st n dd rest = .tok t st' rest ∧ t.line = st.line ∧ st'.line = st.line :=
   ⟨_, _, rfl, rfl, rfl⟩
+
+/-- **the reported line is the physical line**: for EVERY text, every token the lexer delivers (also those delivered
+    before a lexical error) carries `1 +` the number of line feeds that precede its first character — whatever mixture
+    of `;`, LF, CRLF, comments and multi-line bracketed literals comes before it.  (Loop invariant of the token loop:
+    `lineno = 1 + line feeds consumed`; no token except a line break contains a line feed.) -/
+theorem lineno_is_physical_line (text : List Char) :
+    ∀ t ∈ tokensOf (lexFrom LexSt.init text), t.line = 1 + nl (text.take t.pos) := by
+  intro t ht
+  unfold lexFrom at ht
+  have hline : LexSt.init.line = 1 + nl [] := rfl
+  have hpos : LexSt.init.pos = ([] : List Char).length := rfl
+  exact lexAll_lines text (text.length + 1) LexSt.init text [] [] rfl hpos hline
+    (fun t h => by cases h) t ht
+
+/-- … and its offset is the number of characters before it, so "the line of the token" is well defined -/
+theorem message_line_is_token_line (t : Token) (rest : List Token) :
+    ∃ pre, Proto.syntaxMessage (t :: rest) = pre ++ " at line ".toList ++ Dec.natDigits t.line :=
+  ⟨"Syntax error: ".toList ++ Proto.tokenText t, rfl⟩
 
 /-! finite tests on the model (the D6 witnesses, now reporting the physical line) -/
 example : Proto.outcome "1;2 3" = (.syn, "Syntax error: 3 at line 1".toList) := by decide +kernel
